@@ -5,7 +5,7 @@ set -u
 d=$1; shift
 cd /repo || exit 3
 if ! git diff --quiet; then echo "repo dirty"; exit 3; fi
-git apply "$d/patch.diff" 2>/dev/null || git apply --3way "$d/patch.diff" || { echo "PATCH-DOES-NOT-APPLY"; git checkout -- .; exit 3; }
+git apply "$d/patch.diff" 2>/dev/null || { echo "PATCH-DOES-NOT-APPLY"; git reset -q --hard; exit 3; }
 echo "tests: $(/venv/bin/python -m pytest -q -p no:cacheprovider -x 2>&1 | tail -1)"
 if [ -f "$d/demo.py" ]; then (cd /repo && PYTHONPATH=/repo timeout 120 /venv/bin/python "$d/demo.py" >/dev/null 2>&1; echo "demo-with-patch rc=$?"); fi
 for p in "$@"; do
